@@ -615,7 +615,11 @@ func (s unicodeString) index(substr String, start int) int {
 	} else {
 		ss = a.utf16()
 	}
-	idx := utf16Index(s[min(1+start, len(s)):], ss)
+	if start > s.Length() {
+		// not found, even for an empty search string (otherwise replaceAll("", ...) never terminates)
+		return -1
+	}
+	idx := utf16Index(s[1+start:], ss)
 	if idx != -1 {
 		return idx + start
 	}
